@@ -892,7 +892,9 @@ fn oracle(sc: &Scenario, w: &World, out: &mut Outcome) {
                 }
             }
         }
-        if rd.reliable {
+        // completeness is C01's (and, for fragmented samples, C05's) demand; in a C02 campaign a reliable companion
+        // reader is only held to what C02 states (no duplicate, no reordering, no corruption)
+        if rd.reliable && prop != "C02" {
             let missing: Vec<i64> = must.iter().filter(|s| !seen.contains(s)).copied().collect();
             if let Some(&first) = missing.first() {
                 let held_missing: Vec<i64> = missing.iter().filter(|s| w.held.contains(s)).copied().collect();
